@@ -70,6 +70,10 @@ pub struct NetState {
     pub next_seq: u64,
     /// additional one-way delay of the path currently used by client idx (changes on rebinding)
     pub extra_delay_us: BTreeMap<u32, u64>,
+    /// former addresses of rebound clients; with `keep_old_mappings` the NAT still forwards
+    /// datagrams sent to them (to the client's current binding)
+    pub aliases: Vec<(SocketAddress, u32)>,
+    pub keep_old_mappings: bool,
 }
 
 impl NetState {
@@ -158,11 +162,19 @@ fn schedule(buffers: &Buffers, shared: &SharedNet, mut packet: Packet, at_ns: u6
         if at_ns > now {
             io::time::delay(Duration::from_nanos(at_ns - now)).await;
         }
-        let dst: SocketAddress = packet.path.local_address.0;
+        let mut dst: SocketAddress = packet.path.local_address.0;
         let src: SocketAddress = packet.path.remote_address.0;
         let len = packet.payload.len();
         {
             let mut s = shared.lock().unwrap();
+            if s.keep_old_mappings {
+                if let Some((_, idx)) = s.aliases.iter().find(|(a, _)| *a == dst).copied() {
+                    if let Some(h) = s.hosts.iter().find(|h| h.role == Role::Client && h.idx == idx) {
+                        dst = h.addr;
+                        packet.path.local_address.0 = dst;
+                    }
+                }
+            }
             let t = now_ns();
             s.delivered.push((t, dst, src, len, label));
         }
@@ -356,6 +368,19 @@ impl Network for SimNet {
                             Action::EcnCe => {
                                 ce = true;
                                 sh.fire("ecn_ce");
+                            }
+                            Action::SpoofedCorrupt { bits } => {
+                                let mut p = packet.payload.clone();
+                                if !p.is_empty() {
+                                    for b in bits {
+                                        let bit = (*b as usize) % (p.len() * 8);
+                                        p[bit / 8] ^= 1 << (bit % 8);
+                                    }
+                                }
+                                let a: std::net::SocketAddr =
+                                    format!("9.9.{}.{}:{}", n % 200, 1 + n % 250, 7000 + n % 1000).parse().unwrap();
+                                outs.push((0, p, false, Label::Mutated, Some(SocketAddress::from(a))));
+                                sh.fire("spoofed_corrupt");
                             }
                             Action::Stall { us } => {
                                 let until = now + us * 1000;
